@@ -134,7 +134,13 @@ func VerifC16Batch() {
 		}
 		reqs = append(reqs, r)
 	}
-	_, err := c.BatchWriteItem(vCtx, &dynamodb.BatchWriteItemInput{RequestItems: map[string][]types.WriteRequest{vTbl: reqs}})
+	// the limit is on the whole batch, however the requests are spread over tables
+	items := map[string][]types.WriteRequest{vTbl: reqs}
+	if len(reqs) >= 2 && nd.Choice("two-tables", 2) == 1 {
+		nd.Assert(AddTable(vCtx, c, "tb2", "p", "") == nil, "setup-addtable2")
+		items = map[string][]types.WriteRequest{vTbl: reqs[:len(reqs)/2], "tb2": reqs[len(reqs)/2:]}
+	}
+	_, err := c.BatchWriteItem(vCtx, &dynamodb.BatchWriteItemInput{RequestItems: items})
 	invalid := n > 25 || (n > 0 && last >= 2)
 	if invalid {
 		nd.Reach("invalid")
